@@ -45,6 +45,14 @@ def analyse(prog: Program, prop: str, tier: str) -> Ctx:
         from .rules import c03, c15
 
         c03._guarded(ctx, "R15.11", c15.check_late_binding)
+    if ctx.undecideds and not ctx.violations:
+        # a run that could not be modelled because the code cannot run (an attribute nothing binds) is a violation
+        from .rules import c15
+
+        try:
+            c15.diagnose_undecided(ctx)
+        except Exception:  # the diagnosis is an extra: without it the check stays undecided
+            pass
     return ctx
 
 
